@@ -395,7 +395,7 @@ theorem panoc_satisfies_inner_contract_partial (pb : ProblemCF α)
       set sh := (headStep P pr' (stop c) (oot c) s').1 with hsh
       have hgood := (headStep_good P pr' (stop c) (oot c) s' hinv.good).1
       have hgh := headStep_gh P pr' (stop c) (oot c) s' hinv.grad
-      have hloop := headStep_inv False P pr' (stop c) (oot c) s' hinv.loop
+      have hloop := headStep_inv False True P pr' (stop c) (oot c) s' hinv.loop
       have hst := headStep_status P pr' (stop c) (oot c) s'
       rw [hrun] at hc ⊢
       have hfields := exitBlock_fields P pr' sh (headStep P pr' (stop c) (oot c) s').2.1
